@@ -41,7 +41,8 @@ fn c05_paramref_mask_eval() {
     let k: u8 = kani::any();
     kani::assume(k < 64);
     assert!(((r.mask() >> k) & 1 == 1) == (k >= x && k < y));
-    assert!(ParamRef::full().mask() == u64::MAX && ParamRef::full().eval(ParamValue(p)).0 == p);
+    let vc_1 = ParamRef::full().mask() == u64::MAX && ParamRef::full().eval(ParamValue(p)).0 == p;
+    assert!(vc_1);
     let b: u8 = kani::any();
     kani::assume(b < 64);
     assert!(ParamRef::single_bit(b).eval(ParamValue(p)).0 == (p >> b) & 1);
